@@ -531,6 +531,15 @@ def ndjson_terminated(run, body, label):
     n = 0
     for tv in q.live_calls(body, "serde_json::ser::to_vec"):
         pushes = [c for c in q.live_calls(body, "alloc::vec::Vec::<T, A>::push") if q.const_int(c.arg(1)) == 10 and any(q.same_call(cc, tv) for cc in q.calls_in(c.arg(0)))]
+        # other spellings of "append a newline": extend_from_slice(b"\n") / extend(b"\n")
+        for c in body.calls():
+            if c.bb in body.live_blocks() and c.fn in ("alloc::vec::Vec::<T, A>::extend_from_slice", "core::iter::traits::collect::Extend::extend") and len(c.args) > 1 \
+                    and any(q.same_call(cc, tv) for cc in q.calls_in(c.arg(0))):
+                lit = strip(c.arg(1))
+                while lit[0] in ("ref", "deref", "cast"):
+                    lit = lit[1]
+                if lit[0] == "const" and (lit[1].get("bytes") in ("\n", [10]) or lit[1].get("str") == "\n" or str(lit[1].get("s", "")).strip('b"') == "\\n"):
+                    pushes.append(c)
         users = [c for c in body.calls() if c.bb in body.live_blocks() and (c.fn.endswith("convert::From::from") or c.fn.endswith("::data") or "Bytes" in c.fn)
                  and any(q.same_call(cc, tv) for a in c.arg_exprs() for cc in q.calls_in(a)) and not c.fn.endswith("::push")]
         n += 1
